@@ -259,14 +259,13 @@ impl HttpTransport for HttpClient {
 
     /// Refresh the access token using the current access token.
     async fn refresh_access_token(&self) -> Result<(), IggyError> {
-        let token = self.access_token.read().await;
+        // The read guard must be gone before the new token is stored (that takes the write lock).
+        let token = self.access_token.read().await.to_owned();
         if token.is_empty() {
             return Err(IggyError::AccessTokenMissing);
         }
 
-        let command = RefreshToken {
-            token: token.to_owned(),
-        };
+        let command = RefreshToken { token };
         let response = self.post("/users/refresh-token", &command).await?;
         let identity_info: IdentityInfo = response
             .json()
